@@ -246,10 +246,10 @@ def run_privacy(shape, rules, style):
 
 
 @harness(
-    parts=lambda: [[s, k] for s in range(len(SHAPES) if THOROUGH else 4) for k in range(-1, len(KINDS))],
+    parts=lambda: [[s, k] for s in range(len(SHAPES) if THOROUGH else 5) for k in range(-1, len(KINDS))],
     timeout=(200, 1800), cls="F", tracing="concrete-after-choice", twin="first",
     code=["pydoctor.model.System.privacyClass", "pydoctor.model.Documentable.privacyClass/isPrivate", "pydoctor.utils.parse_privacy_tuple", "pydoctor.qnmatch.qnmatch (concrete patterns)"],
-    bounds={"quick": "rule lists of <= 3 rules; each rule: privacy in {HIDDEN, PRIVATE, PUBLIC} x 6 pattern kinds (exact name, '**', 'mod.*', '*', 'other.**', one-char-too-long '?'); 4 name shapes (x, _x, __x__, __x); 3 spellings of the rule string (chosen by the list)",
+    bounds={"quick": "rule lists of <= 3 rules; each rule: privacy in {HIDDEN, PRIVATE, PUBLIC} x 6 pattern kinds (exact name, '**', 'mod.*', '*', 'other.**', one-char-too-long '?'); 5 name shapes (x, _x, __x__, __x, _x__); 3 spellings of the rule string (chosen by the list)",
             "thorough": "same with <= 4 rules and 8 name shapes (adds _x__, x_, __init__, _)"},
     outside="rule lists longer than the bound; cache behaviour across changes of the option list (cache is per name by design)",
 )
